@@ -180,7 +180,7 @@ class C03(Check):
     level_text = ('For each generated stack the single-fault space (<= 17 layers x 4 behaviours) is enumerated '
                   'completely and compared, event by event, with a reference interpreter; stacks are sampled by seed.')
     level_note = 'Trusted: the reference onion interpreter (written from the property text, ~90 lines).'
-    required_probes = ('three-nested-applications-with-middlewares', 'non-unique-non-reorderable-type-twice', 'two-unique-types-with-one-class-name', 'chain-consumes-every-injectable', 'same-hook-at-two-positions:static', 'same-hook-at-two-positions:one-instance', 'declared-name-provided-further-in', 'declared-name-offered',
+    required_probes = ('stack-deeper-than-64', 'three-nested-applications-with-middlewares', 'non-unique-non-reorderable-type-twice', 'two-unique-types-with-one-class-name', 'chain-consumes-every-injectable', 'same-hook-at-two-positions:static', 'same-hook-at-two-positions:one-instance', 'declared-name-provided-further-in', 'declared-name-offered',
                        'non-response-value-through-layers', 'unique-type-twice-in-route-list', 'subclass-and-base-in-one-stack', 'closure-hooks', 'second-route-without-own-middlewares', 'render-skipped-for-response', 'no-render-layers-ran', 'unique-deduped', 'three-levels',
                        'swallow-fired', 'double-fault')
 
@@ -244,7 +244,7 @@ class C03(Check):
         return {'types': types, 'outer': outer, 'sub': sub, 'mid': mid, 'route': route, 'wiring': wiring,
                 # what the endpoint declares: with all four, the chain consumes EVERYTHING the framework has on offer for this route
                 'ep_consumes': rng.choice([[], [], ['request'], ['request', '_route', '_application', '_dispatch_state']]),
-                'ep_returns': rng.choice(['dict', 'dict', 'resp', 'baseresp', 'falsyresp']), 'has_render': rng.random() < 0.8}
+                'ep_returns': rng.choice(['dict', 'dict', 'resp', 'baseresp', 'falsyresp', 'excobj']), 'has_render': rng.random() < 0.8}
 
     def generate(self, seed, tier):
         S = Streams(seed)
@@ -266,7 +266,7 @@ class C03(Check):
         for v in ('none', 'str'):
             ops.append({'faults': {'EP': {'beh': 'return', 'value': v}}})
         for name in frng.sample(layers, min(3, len(layers))):
-            ops.append({'faults': {name: {'beh': frng.choice(['return_early', 'replace_after']), 'value': frng.choice(['none', 'str', 'number', 'list'])}}})
+            ops.append({'faults': {name: {'beh': frng.choice(['return_early', 'replace_after']), 'value': frng.choice(['none', 'str', 'number', 'list', 'excobj'])}}})
         allf = layers + ['EP'] + (['RN'] if cfg['has_render'] else [])
         for _ in range(4 if tier == 'quick' else 10):
             if len(allf) >= 2:
@@ -281,10 +281,29 @@ class C03(Check):
             ops.append({'faults': {name: {'beh': frng.choice(LAYER_BEHS), 'exc': frng.choice(excs)}}, 'target': 'y'})
         return {'world': 'chain', 'seed': seed, 'config': cfg, 'ops': ops}
 
+    def extra_plans(self, tier, base_seed):
+        """Deep stacks: 60-90 middlewares around one endpoint, a providing middleware at every position near the 64th,
+        the endpoint (and a consumer further in) declaring the provided name."""
+        depths = [66, 80] if tier == 'quick' else [64, 65, 66, 70, 80, 90]
+        for n in depths:
+            for ppos in ([62, 63, 64] if tier == 'quick' else range(58, n, 1)):
+                types = {'T0': {'unique': False, 'reorderable': True, 'phases': ['request'], 'base': None, 'hooks': 'method'},
+                         'T1': {'unique': True, 'reorderable': True, 'phases': ['request'], 'base': None, 'hooks': 'method'},
+                         'T2': {'unique': True, 'reorderable': True, 'phases': ['request', 'endpoint'], 'base': None, 'hooks': 'method'}}
+                outer = ['T0'] * n
+                outer[ppos] = 'T1'
+                cfg = {'types': types, 'outer': outer, 'sub': None, 'mid': None, 'route': ['T2'],
+                       'wiring': {'name': 'u1', 'provider': 'T1', 'consumers': {'T2': ['request', 'endpoint']}, 'ep': True},
+                       'ep_consumes': [], 'ep_returns': 'resp', 'has_render': False}
+                yield {'world': 'chain', 'seed': base_seed, 'config': cfg, 'mode': 'deep-stack',
+                       'ops': [{'faults': {}}, {'faults': {'o%d:T0.request' % (n - 1): {'beh': 'raise_after', 'exc': 'KeyError'}}}]}
+
     def execute(self, plan):
         res = RunResult()
         cfg = plan['config']
         K = 'C03/'
+        if plan.get('mode') == 'deep-stack':
+            res.probe('stack-deeper-than-64')
         try:
             order = merged_order(cfg)
         except ValueError:
